@@ -381,7 +381,7 @@ def run(ctx):
             lang = "C" if i % 3 == 0 else ("CPP" if i % 3 == 1 else "C")
             if i % 7 == 6:
                 lang = "JAVA"
-            txt = cgen.program(rng, lang, stats=ctx.hist, style=rng.choice(["random", "random", "clean"]))
+            txt = cgen.program(rng, lang, stats=ctx.hist, style=rng.choice(["random", "random", "clean"]), div_deref=(i % 2 == 0))
             ext = {"C": ".c", "CPP": ".cpp", "JAVA": ".java"}[lang]
             progs.append((sc.write(txt, ext), lang, txt))
         base_obj = {}
